@@ -130,9 +130,9 @@ type Query { n: Node, u: U, a: A, x: Int }
 '''
     tq = lambda n: {"op": "type", "name": n, "incl": True, "desc": False}  # noqa
     out.append({"mode": "sdl_text", "sdl": hist_sdl, "ops": [
-        {"op": "intro", "incl": True, "desc": True}, tq("Node"), tq("U"),
+        {"op": "intro", "incl": True, "desc": False}, tq("Node"), tq("U"),
         {"op": "edit", "edit": "hide_type", "name": "A"},
-        {"op": "intro", "incl": True, "desc": True}, tq("Node"), tq("U"), tq("A"), tq("Query"),
+        {"op": "intro", "incl": True, "desc": False}, tq("Node"), tq("U"), tq("A"), tq("Query"),
         {"op": "edit", "edit": "drop_interface", "type": "B", "name": "Node"},
         tq("Node"), tq("B"),
         {"op": "edit", "edit": "hide_enum_value", "type": "Color", "name": "GREEN"},
@@ -242,7 +242,7 @@ def _history_case(rng, tier, mode):
             schema.validate()
         except SchemaError:
             continue
-        ops = [{"op": "intro", "incl": True, "desc": True}]
+        ops = [{"op": "intro", "incl": True, "desc": False}]   # descriptions off: smaller trees
         edits = 0
         for _round in range(2 if tier == "quick" else 4):
             dump = G.dump_schema(schema)
@@ -264,7 +264,7 @@ def _history_case(rng, tier, mode):
             ops.append(dict(edit, op="edit"))
             edits += 1
             touched = [edit.get("type"), edit.get("name")]
-            ops.append({"op": "intro", "incl": rng.random() < 0.7, "desc": rng.random() < 0.5})
+            ops.append({"op": "intro", "incl": rng.random() < 0.7, "desc": False})
             for n in [x for x in touched if x] + abstract[:3]:
                 ops.append({"op": "type", "name": n, "incl": True, "desc": False})
         if edits:
@@ -577,11 +577,17 @@ def run_impl(case):
             results.append({"edit": True, "dangling": G.dangling(dumps[-1])})
             continue
         text, root, disabled = _op_query(op)
+        # every operation: the primary pipeline plus secondary configurations -- all three for the
+        # first two operations and every probe, one (rotating) for the others
+        if i < 2 or op["op"] == "probe":
+            configs = CONFIGS
+        else:
+            configs = [CONFIGS[0], CONFIGS[1 + i % 3]]
         per = []
-        for k, (name, ex, rt) in enumerate(CONFIGS):
+        for k, (name, ex, rt) in enumerate(configs):
             per.append(_execute(schema, text, copy.deepcopy(root), disabled, ex, rt, k == 0))
         results.append(per[0])
-        for (name, _e, _r), r in zip(CONFIGS[1:], per[1:]):
+        for (name, _e, _r), r in zip(configs[1:], per[1:]):
             if json.dumps(r, default=str) != json.dumps(per[0], default=str):
                 diffs.append({"op": i, "config": name, "result": json.loads(json.dumps(r, default=str))})
     obs = {"dump": dumps[0], "dumps": dumps, "results": results, "runtime_diffs": diffs, "reparse": [],
